@@ -183,6 +183,8 @@ def rendezvous(ctx, n, k, state, then, ping, empties=False, producer="generator"
                 if k > n:
                     for c in it:
                         got.append(c)
+                        if state == "slow-client":
+                            time.sleep(ping * 3.5)  # the client takes several ping intervals to take each chunk
                 if state == "ahead":
                     time.sleep(0.03)  # let the relay fetch the next item and block in put()
             res["yielded_at_close"] = len(marks["yielded"])
@@ -240,6 +242,9 @@ def rendezvous(ctx, n, k, state, then, ping, empties=False, producer="generator"
         ids = None
     if ids is None or ids != marks["yielded"][:len(ids)]:
         probs.append(("delivered-not-a-prefix-of-yielded", f"{ids} vs {marks['yielded']}"))
+    elif k > n and then in ("yield", "cleanup-raises") and res.get("exc") is None and ids != list(range(n)):
+        # the client never closed early and nothing raised: the stream may only end when the producer is exhausted, with everything delivered
+        probs.append(("stream-ended-before-everything-was-delivered", f"client read to the end and got {ids}; the producer has {n} events"))
     ctx.mon("producer-steps-after-close")
     extra_steps = len(marks["yielded"]) - res.get("yielded_at_close", len(marks["yielded"]))
     if extra_steps > 2:
@@ -775,6 +780,9 @@ def asgi_scenario(ctx, cls_name, n_items, item_delay, send_delay, t_disc, ping, 
     ctx.mon("delivered-prefix")
     if ids is None or ids != yielded[:len(ids)]:
         ctx.violation(f"{fam}|delivered-not-a-prefix-of-yielded", case, f"{ids} vs {yielded}")
+    elif t_disc is None and exc is None and raise_at is None and send_fail_at is None and not busy and ids != list(range(n_items)):
+        # nobody disconnected, nothing failed: the response may only finish when the producer is exhausted and everything was delivered
+        ctx.violation(f"{fam}|stream-ended-before-everything-was-delivered", case, f"delivered {ids}; the producer has {n_items} items")
     will_raise = raise_at is not None and raise_at <= n_items
     if not agen and raise_at is not None:
         will_raise = raise_at <= n_items
@@ -823,7 +831,7 @@ def run(ctx):
     for cls in ("SendEventResponse", "StreamResponse"):
         for n_items in ((0, 1, 2, 3) if ctx.quick else (0, 1, 2, 3, 4)):
             for idl in (0, 0.5, 1.5, 4):
-                for sdl in (0, 0.5):
+                for sdl in (0, 0.5, 1.0, 2.5):  # a send() may well take longer than the ping interval (1.0)
                     for td in discs:
                         for raise_at in (None, 0, 1):
                             for agen in (True, False):
@@ -906,6 +914,8 @@ def run(ctx):
     for n, k in ((2, 1), (3, 1), (3, 2), (2, 3), (3, 0)):
         scen += [(n, k, "exhausted" if k > n else "ahead", "yield", 5, True), (n, min(k, n - 1), "midstep", "yield", 5, True),
                  (n, min(k, n - 1), "midstep", "cleanup-raises", 5), (n, min(k, n - 1), "ahead", "cleanup-raises", 0.02)]
+    for n in (2, 4, 6):
+        scen += [(n, n + 1, "slow-client", "yield", 0.02), (n, n + 1, "slow-client", "yield", 0.02, True)]
     for n, k in ((2, 1), (3, 1), (3, 2), (2, 3), (3, 0), (1, 1)):
         scen += [(n, k, "exhausted" if k > n else ("ahead" if k < n else "exhausted"), "yield", 5, False, "iterable-object"),
                  (n, min(k, n - 1), "midstep", rng.choice(["yield", "return", "raise"]), 0.02, False, "iterable-object")]
